@@ -1,4 +1,5 @@
-/- line-protocol driver of the `Ctor` engine (C19): construction forms, `==`, `eval(repr)` -/
+/- line-protocol driver of the `Ctor` engine (C19): construction forms, `==`, `eval(repr)`, on the default
+database and along histories of registrations and questions on a private database -/
 import Barril.Model.Proto
 import Barril.Model.Ctor
 import Barril.Gen.Dbs
@@ -8,6 +9,8 @@ def absR (q : Rat) : Rat := if q < 0 then -q else q
 def maxR (a b : Rat) : Rat := if a < b then b else a
 
 def theDb : Db := Gen.poscDb
+
+def lg : List (Sym × Sym) := Barril.Gen.legacyList
 
 /-! ### decoding -/
 
@@ -48,10 +51,23 @@ def parseAtom (j : Json) : Except String Atom :=
         | none => .error "bad number"
       | _ => .error s!"not an atom: {j.compress}"
 
-/-- an argument expression: evaluating it may already raise (`ObtainQuantity(…)`) -/
-def parseArg (j : Json) : Except String (Except ErrKind PyVal) :=
+def parseItem (v : Json) : Except String (Sym × Sym × Int) :=
+  match v with
+  | .arr #[.str c, .str u, .str e] =>
+    match c.toNat?, u.toNat?, e.toInt? with
+    | some c, some u, some e => .ok (c, u, e)
+    | _, _, _ => .error "bad composing entry"
+  | _ => .error "composing entry [category, unit, exponent] expected"
+
+def optField (j : Json) (k : String) : Json :=
+  match j.getObjVal? k with
+  | .ok v => v
+  | .error _ => .null
+
+/-- an argument expression: a value, or a call that obtains a Quantity (evaluated when the form runs) -/
+def parseArg (j : Json) : Except String QExpr :=
   match j with
-  | .null => .ok (.ok .none)
+  | .null => .ok (.val .none)
   | _ =>
     match j.getObjVal? "rows" with
     | .ok (.str kind) => do
@@ -63,7 +79,7 @@ def parseArg (j : Json) : Except String (Except ErrKind PyVal) :=
       let rows ← items.toList.mapM (fun r => match r with
         | .arr a => a.toList.mapM parseAtom
         | _ => .error "row is not an array")
-      pure (.ok (.rows k rows))
+      pure (.val (.rows k rows))
     | _ =>
     match j.getObjVal? "seq" with
     | .ok (.str kind) => do
@@ -74,14 +90,14 @@ def parseArg (j : Json) : Except String (Except ErrKind PyVal) :=
         | _ => throw s!"bad seq kind {kind}"
       let items ← getArr j "items"
       let atoms ← items.toList.mapM parseAtom
-      pure (.ok (.seq k atoms))
+      pure (.val (.seq k atoms))
     | _ =>
       match j.getObjVal? "fv" with
       | .ok (.arr a) =>
         match a.toList with
         | [.str n, .str f] =>
           match parseRat? n, parseRat? f with
-          | some n, some f => .ok (.ok (.fv n f))
+          | some n, some f => .ok (.val (.fv n f))
           | _, _ => .error "bad fv"
         | _ => .error "bad fv"
       | _ =>
@@ -91,28 +107,37 @@ def parseArg (j : Json) : Except String (Except ErrKind PyVal) :=
           | [u, c] => do
             let u ← parseAtom u
             let c ← parseAtom c
-            pure (match obtainQuantity theDb (.atom u) c with
-                  | .ok q => .ok (.qty q)
-                  | .error e => .error e)
+            pure (.oq (.atom u) c .none)
+          | [u, c, cap] => do
+            let u ← parseAtom u
+            let c ← parseAtom c
+            let cap ← parseAtom cap
+            pure (.oq (.atom u) c cap)
           | _ => .error "bad oq"
-        | _ => do
-          let a ← parseAtom j
-          pure (.ok (.atom a))
+        | _ =>
+          match j.getObjVal? "dq" with
+          | .ok (.arr a) => do
+            let items ← a.toList.mapM parseItem
+            let cap ← parseAtom (optField j "cap")
+            pure (.dq items cap)
+          | _ =>
+            match j.getObjVal? "unk" with
+            | .ok cap => do
+              let cap ← parseAtom cap
+              pure (.unk cap)
+            | _ => do
+              let a ← parseAtom j
+              pure (.val (.atom a))
 
 structure Form where
-  cwq : Bool
+  kind : CallKind
   cls : String
-  a1 : Except ErrKind PyVal
-  a2 : Except ErrKind PyVal
+  a1 : QExpr
+  a2 : QExpr
   a3 : Atom
   dim : Int
   dimKw : Option Int
   kw : Bool
-
-def optField (j : Json) (k : String) : Json :=
-  match j.getObjVal? k with
-  | .ok v => v
-  | .error _ => .null
 
 def parseForm (j : Json) : Except String Form := do
   let k ← getStr j "k"
@@ -129,9 +154,13 @@ def parseForm (j : Json) : Except String Form := do
   let kw := match optField j "kw" with
     | .bool b => b
     | _ => false
-  if k != "ctor" && k != "cwq" then throw s!"bad form kind {k}"
+  let kind ← match k with
+    | "ctor" => pure CallKind.ctor
+    | "cwq" => pure CallKind.cwq
+    | "empty" => pure CallKind.empty
+    | _ => throw s!"bad form kind {k}"
   if !(["scalar", "array", "fixed", "fraction"].contains cls) then throw s!"bad class {cls}"
-  pure ⟨k == "cwq", cls, a1, a2, a3, dim, dimKw, kw⟩
+  pure ⟨kind, cls, a1, a2, a3, dim, dimKw, kw⟩
 
 def clsOf (f : Form) : Cls :=
   match f.cls with
@@ -140,19 +169,13 @@ def clsOf (f : Form) : Cls :=
   | "fixed" => .fixed f.dim
   | _ => .fraction
 
-/-- run one form on the model (arguments are evaluated left to right first) -/
-def runForm (f : Form) : Except String (Except ErrKind Obj) :=
-  match f.a1 with
-  | .error e => .ok (.error e)
-  | .ok a1 =>
-    match f.a2 with
-    | .error e => .ok (.error e)
-    | .ok a2 =>
-      if f.cwq then
-        match a1 with
-        | .qty q => .ok (createWithQuantity theDb (clsOf f) q a2 f.kw f.dimKw)
-        | _ => .error "CreateWithQuantity form without a quantity"
-      else .ok (construct theDb (clsOf f) a1 a2 f.a3)
+def callOf (f : Form) : Call := ⟨f.kind, clsOf f, f.a1, f.a2, f.a3, f.kw, f.dimKw⟩
+
+/-- run one form on the model (`Ctor.runCall`: arguments are evaluated left to right first) -/
+def runForm (db : Db) (f : Form) : Except String (Except ErrKind Obj) :=
+  match runCall db (callOf f) with
+  | some r => .ok r
+  | none => .error "CreateWithQuantity form without a quantity"
 
 /-! ### magnitudes for values that went through float arithmetic -/
 
@@ -173,8 +196,8 @@ def juggled (f : Form) (a1 a2 : PyVal) : Option (Atom × PyVal × PyVal) :=
 
 /-- `some M` when the value of the object came out of float arithmetic (a converted category
 default, or `float(FractionValue)`) -/
-def floatMag (f : Form) (o : Obj) : Option Rat :=
-  match f.a1, f.a2 with
+def floatMag (db : Db) (f : Form) (o : Obj) : Option Rat :=
+  match f.a1.eval db, f.a2.eval db with
   | .ok a1, .ok a2 =>
     let fvMag : Option Rat :=
       if f.cls == "scalar" then
@@ -184,14 +207,14 @@ def floatMag (f : Form) (o : Obj) : Option Rat :=
         | _, _ => none
       else none
     let convM : Option Rat :=
-      if f.cwq || !(f.cls == "scalar" || f.cls == "fraction") then none else
+      if f.kind != .ctor || !(f.cls == "scalar" || f.cls == "fraction") then none else
       match juggled f a1 a2 with
       | some (cat, v, .atom (.str u _)) =>
         if !v.isNone then none else
-        match getCategoryInfo theDb cat with
+        match getCategoryInfo db cat with
         | .ok ci =>
           if u == ci.defaultUnit then none else
-          match theDb.getInfo ci.qtype ci.defaultUnit true, theDb.getInfo ci.qtype u true with
+          match db.getInfo ci.qtype ci.defaultUnit true, db.getInfo ci.qtype u true with
           | .ok a, .ok b =>
             let y := match o.val with
               | .scalar y => y
@@ -227,58 +250,190 @@ def canonArg : PyVal → Json
   | .fv n f => Json.mkObj [("fv", Json.arr #[ratJ n, ratJ f])]
   | .qty q => Json.mkObj [("qty", Json.arr #[symJ q.cat, symJ q.unit])]
 
-def qtypeOf (q : Qty) : Sym :=
-  match theDb.catByName q.cat with
+def qtypeOf (db : Db) (q : Qty) : Sym :=
+  if q.isDerived then 0 else
+  match db.catByName q.cat with
   | some ci => ci.qtype
   | none => 0
 
-def canonObj (o : Obj) : Json :=
+def compJ : Option (List (Sym × Sym × Int)) → Json
+  | none => .null
+  | some l => Json.arr (l.map (fun e => Json.arr #[symJ e.1, symJ e.2.1, .str (toString e.2.2)])).toArray
+
+def canonObj (db : Db) (o : Obj) : Json :=
   let (cls, val, dim) : String × Json × Json := match o.val with
     | .scalar v => ("scalar", Json.mkObj [("n", ratJ v)], .null)
     | .fraction n f => ("fraction", Json.mkObj [("fv", Json.arr #[ratJ n, ratJ f])], .null)
     | .arr v => ("array", Json.mkObj [("any", canonArg v)], .null)
     | .fixed v d => ("fixed", Json.mkObj [("any", canonArg v)], .str (toString d))
-  Json.mkObj [("cls", .str cls), ("cat", symJ o.q.cat), ("unit", symJ o.q.unit), ("qtype", symJ (qtypeOf o.q)),
-    ("dim", dim), ("val", val)]
+  Json.mkObj [("cls", .str cls), ("cat", symJ o.q.cat), ("unit", symJ o.q.unit), ("qtype", symJ (qtypeOf db o.q)),
+    ("cap", symJ o.q.caption), ("comp", compJ o.q.comp), ("dim", dim), ("val", val)]
 
 def eqJ (r : Except ErrKind Bool) : Json :=
   match r with
   | .ok b => .bool b
   | .error e => .str e.name
 
-def reprJ (o : Obj) : Json :=
-  match reprBack theDb o with
+def reprJ (db : Db) (o : Obj) : Json :=
+  match reprBack db o with
   | none => .null
   | some (.ok b) =>
-    Json.mkObj [("back", Json.mkObj [("ok", canonObj b)]), ("eq", eqJ (Obj.eq b o)),
+    Json.mkObj [("back", Json.mkObj [("ok", canonObj db b)]), ("eq", eqJ (Obj.eq b o)),
       ("unit", symJ o.q.unit), ("cat", symJ o.q.cat)]
   | some (.error e) =>
     Json.mkObj [("back", errJ e), ("eq", .null), ("unit", symJ o.q.unit), ("cat", symJ o.q.cat)]
 
+/-- a group of forms on the database `db`: per form the result, `==` against the first object built (both
+directions), and `eval(repr)` when asked for -/
+def formsJ (db : Db) (j : Json) : Except String Json := do
+  let fjs ← getArr j "forms"
+  let forms ← fjs.toList.mapM parseForm
+  let wantRepr := match optField j "repr" with
+    | .bool b => b
+    | _ => false
+  let outs ← forms.mapM (fun f => do let r ← runForm db f; pure (f, r))
+  let ref : Option Obj := outs.findSome? (fun (_, r) => match r with | .ok o => some o | .error _ => none)
+  let res := outs.map (fun (f, r) => match r with
+    | .ok o =>
+      match floatMag db f o with
+      | some m => Json.mkObj [("ok", canonObj db o), ("M", ratJ m)]
+      | none => Json.mkObj [("ok", canonObj db o)]
+    | .error e => errJ e)
+  let eqs := outs.map (fun (_, r) => match r, ref with
+    | .ok o, some rf => Json.arr #[eqJ (Obj.eq o rf), eqJ (Obj.eq rf o)]
+    | _, _ => .null)
+  let reprs := if wantRepr then outs.map (fun (_, r) => match r with
+    | .ok o => reprJ db o
+    | .error _ => .null) else []
+  pure (Json.mkObj [("res", Json.arr res.toArray), ("eq", Json.arr eqs.toArray), ("repr", Json.arr reprs.toArray)])
+
+/-! ### registrations (the encoding of `harness/props/_reg_common.py`, as in `Drivers/Reg.lean`) -/
+
+open Barril.Reg in
+def getSArg (j : Json) (k : String) : Except String SArg := do
+  let s ← getStr j k
+  if s == "n" then pure .none
+  else if s == "b" then pure .bad
+  else match (s.drop 1).toString.toNat? with
+    | some n => if s.startsWith "s" then pure (.str n) else throw s!"bad string argument {s}"
+    | none => throw s!"bad string argument {s}"
+
+def optField? (j : Json) (k : String) : Option Json :=
+  match j.getObjVal? k with
+  | .ok .null => none
+  | .ok v => some v
+  | .error _ => none
+
+def jSym (v : Json) : Except String Sym :=
+  match v with
+  | .str s => match s.toNat? with
+    | some n => pure n
+    | none => throw s!"not a symbol code: {s}"
+  | _ => throw "symbol code expected"
+
+def jRat (v : Json) : Except String Rat :=
+  match v with
+  | .str s => match parseRat? s with
+    | some q => pure q
+    | none => throw s!"not a rational: {s}"
+  | _ => throw "rational expected"
+
+def getOptSym (j : Json) (k : String) : Except String (Option Sym) :=
+  match optField? j k with
+  | none => pure none
+  | some v => do pure (some (← jSym v))
+
+def getOptRat (j : Json) (k : String) : Except String (Option Rat) :=
+  match optField? j k with
+  | none => pure none
+  | some v => do pure (some (← jRat v))
+
+def getOptSyms (j : Json) (k : String) : Except String (Option (List Sym)) :=
+  match optField? j k with
+  | none => pure none
+  | some (.arr a) => do pure (some (← a.toList.mapM jSym))
+  | some _ => throw s!"field {k}: list expected"
+
+open Barril.Reg in
+def getFormula (j : Json) (k : String) : Except String Formula :=
+  match j.getObjVal? k with
+  | .ok (.str "noX") => pure .noX
+  | .ok (.str "syn") => pure .syntaxErr
+  | .ok (.arr a) => do
+    match ← a.toList.mapM jRat with
+    | [p, q, r, s] => pure (.mob ⟨p, q, r, s⟩)
+    | _ => throw s!"field {k}: four coefficients expected"
+  | _ => throw s!"field {k}: formula expected"
+
+open Barril.Reg in
+def parseRegOp (j : Json) : Except String RegOp := do
+  let k ← getStr j "k"
+  match k with
+  | "base" => pure (.addUnitBase (← getSArg j "qt") (← getSym j "name") (← getSArg j "unit"))
+  | "unit" =>
+    pure (.addUnit (← getSArg j "qt") (← getSym j "name") (← getSArg j "unit") (← getFormula j "fb")
+      (← getFormula j "tb") (← getSym j "dc"))
+  | "cat" =>
+    pure (.addCategory {
+      category := ← getSArg j "c", qtype := ← getOptSym j "qt", validUnits := ← getOptSyms j "vu",
+      override := ← getBool j "ov", defaultUnit := ← getOptSym j "du", defaultValue := ← getOptRat j "dv",
+      minV := ← getOptRat j "min", maxV := ← getOptRat j "max", minExcl := ← getBool j "minx",
+      maxExcl := ← getBool j "maxx", caption := ← getSym j "cap", fromCat := ← getOptSym j "from" })
+  | _ => throw s!"unknown registration kind {k}"
+
+def optJ {α : Type} (f : α → Json) : Option α → Json
+  | none => .null
+  | some a => f a
+
+def symsJ (l : List Sym) : Json := Json.arr (l.map symJ).toArray
+
+def catJ (ci : CatRow) : Json :=
+  Json.arr #[symJ ci.name, symJ ci.qtype, optJ symsJ ci.validUnits, symJ ci.defaultUnit, ratJ ci.defaultValue,
+    optJ ratJ ci.minV, optJ ratJ ci.maxV, .bool ci.minExcl, .bool ci.maxExcl, symJ ci.caption]
+
+def regOutJ : Except ErrKind Barril.Reg.Out → Json
+  | .error e => errJ e
+  | .ok .unit => Json.mkObj [("ok", .null)]
+  | .ok (.cat ci) => Json.mkObj [("ok", catJ ci)]
+
+def defcatJ : Except ErrKind (Option Sym) → Json
+  | .ok (some c) => Json.mkObj [("ok", symJ c)]
+  | .ok none => Json.mkObj [("ok", .null)]
+  | .error e => errJ e
+
+/-- a history on a private database, one answer per step: the state is the registry (`Ctor.hstep`:
+registrations through `Reg.step`; questions and groups of forms are answered from `dbOf` of the
+registry as it is at that step) -/
+def runHist : Barril.Reg.Registry → List Json → Except String (List Json)
+  | _, [] => pure []
+  | r, j :: js => do
+    match j.getObjVal? "q" with
+    | .ok (.str "defcat") =>
+      let u ← getSym j "unit"
+      let out := match (hstep lg r (.defcat u)).2 with
+        | .defcat d => defcatJ d
+        | _ => .null
+      pure (out :: (← runHist r js))
+    | .ok (.str "forms") =>
+      let out ← formsJ (dbOf lg r) j
+      pure (out :: (← runHist r js))
+    | .ok _ => throw "unknown question"
+    | .error _ =>
+      let op ← parseRegOp j
+      let (r1, o) := hstep lg r (.reg op)
+      let out := match o with
+        | .reg x => regOutJ x
+        | _ => .null
+      pure (out :: (← runHist r1 js))
+
 def handle (j : Json) : Except String Json := do
   let op ← getStr j "op"
   match op with
-  | "forms" =>
-    let fjs ← getArr j "forms"
-    let forms ← fjs.toList.mapM parseForm
-    let wantRepr := match optField j "repr" with
-      | .bool b => b
-      | _ => false
-    let outs ← forms.mapM (fun f => do let r ← runForm f; pure (f, r))
-    let ref : Option Obj := outs.findSome? (fun (_, r) => match r with | .ok o => some o | .error _ => none)
-    let res := outs.map (fun (f, r) => match r with
-      | .ok o =>
-        match floatMag f o with
-        | some m => Json.mkObj [("ok", canonObj o), ("M", ratJ m)]
-        | none => Json.mkObj [("ok", canonObj o)]
-      | .error e => errJ e)
-    let eqs := outs.map (fun (_, r) => match r, ref with
-      | .ok o, some rf => Json.arr #[eqJ (Obj.eq o rf), eqJ (Obj.eq rf o)]
-      | _, _ => .null)
-    let reprs := if wantRepr then outs.map (fun (_, r) => match r with
-      | .ok o => reprJ o
-      | .error _ => .null) else []
-    pure (Json.mkObj [("res", Json.arr res.toArray), ("eq", Json.arr eqs.toArray), ("repr", Json.arr reprs.toArray)])
+  | "forms" => formsJ theDb j
+  | "hist" =>
+    let steps ← getArr j "steps"
+    let outs ← runHist Barril.Reg.Registry.empty steps.toList
+    pure (Json.mkObj [("outs", Json.arr outs.toArray)])
   | "lit" =>
     let s ← getSym j "s"
     pure (Json.mkObj [("ok", .bool (parseLit (quoteLit (Sym.bytes s)) == some (Sym.bytes s)))])
